@@ -176,3 +176,63 @@ contract("HpcSubmitter._submit_batches", file=F,
          ],
          modifies=["submitted_jobs", "blocked_jobs", "self._batch_index", "JobQueue._num_jobs", "JobQueue._outstanding_jobs",
                    "JobQueue._queued_jobs", "ghost.runs"] + HEAP_ASYNC + HEAP_BATCH)
+
+# ---- AsyncHpcSubmitter: implementation of the AsyncJob interface ---------------------------------
+contract("HpcManager.submit", kind="assumed",
+         params=[("self", "Ref[HpcManager]"), ("directory", "Opt[Opaque]"), ("name", "Name"), ("script", "Opaque"),
+                 ("submission_group_name", "Name"), ("wait", "bool", "False"), ("keep_submission_script", "bool", "True"), ("dry_run", "bool", "False")],
+         returns="Tuple[Opt[Name],Enum[Status]]",
+         ensures=["implies(dry_run, ghost.sbatch_n == old(ghost.sbatch_n))",
+                  "ghost.sbatch_n >= old(ghost.sbatch_n) and ghost.sbatch_n <= old(ghost.sbatch_n) + 1",
+                  "implies(result[1] == Status.GOOD and not dry_run, not isnone(result[0]) and ghost.sbatch_n == old(ghost.sbatch_n) + 1)"],
+         modifies=["ghost.sbatch_n"],
+         note="HpcManager.submit -> SlurmManager.submit (verified in C18 contracts): writes the sbatch script, runs sbatch unless dry_run")
+ghost("sbatch_n", "int")
+
+contract("AsyncHpcSubmitter._make_singularity_command", kind="assumed",
+         params=[("self", "Ref[AsyncHpcSubmitter]")], returns="Opaque", note="writes a wrapper script (C18)")
+
+contract("AsyncHpcSubmitter.run", file=F,
+         params=[("self", "Ref[AsyncHpcSubmitter]")], returns="Enum[Status]",
+         requires=["not isnone(self._submission_group)"],
+         ensures=[
+             # interface clauses (AsyncJob.run)
+             "implies(old(self._dry_run), ghost.sbatch_n == old(ghost.sbatch_n))",
+             "ghost.sbatch_n <= old(ghost.sbatch_n) + 1",
+             # C12: a failed submission is reported as ERROR and the batch is complete with a non-zero code, so it is never outstanding
+             "implies(result != Status.GOOD, result == Status.ERROR and self.g_done and self.return_code == 1 and self._job_id == old(self._job_id))",
+             "implies(result == Status.GOOD, not self.g_done or old(self.g_done))",
+             "implies(result == Status.GOOD and not old(self._dry_run), not isnone(self._job_id))",
+         ],
+         modifies=["self._job_id", "self._return_code", "self._is_complete", "ghost.sbatch_n"])
+
+contract("HpcStatusCollector.check_status", file=F,
+         params=[("self", "Ref[HpcStatusCollector]"), ("job_id", "Opt[Name]")], returns="Enum[HpcJobStatus]",
+         locals={"cur_time": "real"},
+         ensures=["implies(not isnone(job_id), result == (self._statuses[val(job_id)] if val(job_id) in self._statuses else HpcJobStatus.NONE))"],
+         raises={"ExecutionError": {"ensures": ["self._statuses == old(self._statuses)"]}},
+         ghost_ensures=["ghost.last_status == result"],
+         modifies=["self._statuses", "self._last_poll_time", "ghost.last_status"])
+contract("HpcManager.check_statuses", kind="assumed",
+         params=[("self", "Ref[HpcManager]")], returns="Dict[Name,Enum[HpcJobStatus]]",
+         raises={"ExecutionError": {}},
+         note="HpcManager.check_statuses -> SlurmManager.check_statuses (C18): squeue output parsed into id -> status; raises when squeue fails")
+contract("time.time", kind="assumed", params=[], returns="real", note="wall clock")
+contract("time.sleep", kind="assumed", params=[("secs", "real")], note="wall clock")
+
+contract("AsyncHpcSubmitter.is_complete", file=F,
+         params=[("self", "Ref[AsyncHpcSubmitter]")], returns="bool",
+         ensures=["result == self.g_done", "implies(old(self.g_done), self.g_done)",
+                  # C18/C06: complete only if it already was, or the collector reports COMPLETE / NONE (absent)
+                  "implies(result and not old(self.g_done), ghost.last_status == HpcJobStatus.COMPLETE or ghost.last_status == HpcJobStatus.NONE)"],
+         raises={"ExecutionError": {"ensures": ["self.g_done == old(self.g_done)"]}},
+         modifies=["self._is_complete", "HpcStatusCollector._statuses", "HpcStatusCollector._last_poll_time", "ghost.last_status"])
+ghost("last_status", "Enum[HpcJobStatus]")
+
+contract("AsyncHpcSubmitter.create_from_id", file=F, fresh_result=True,
+         params=[("hpc_manager", "Ref[HpcManager]"), ("status_collector", "Ref[HpcStatusCollector]"), ("job_id", "Name")],
+         returns="Ref[AsyncHpcSubmitter]",
+         ensures=["result._job_id == job_id and result.name == job_id and not result.g_done and isnone(result._submission_group)",
+                  "result._mgr == hpc_manager and result._status_collector == status_collector",
+                  "empty(result.blocking) and result.g_launched == 0 and not result.g_canceled"],
+         modifies=HEAP_ASYNC)
